@@ -215,10 +215,24 @@ def build_case(rng, A, kind):
                 # a decoy defining the same names with other values; never imported
                 decoy = {"name": "Decoy", "oid": [["num", 9], ["num", 9]], "tagdefault": None, "imports": [], "empty_imports": False,
                          "items": [["val", a[1], ["INTEGER", [], None], ["int", 4242]] for a in assigns]}
+                if place in ("sibling_oid", "two_hop_oid") and sib.get("oid") is not None and rng.random() < 0.5:
+                    # ... or another EDITION of the declaring module: same module name, another object identifier, other values;
+                    # the import names the right one by its object identifier.  (With equal names the first loaded module whose
+                    # name matches wins on the unchanged tree, so the right edition is kept in front of the other: see below.)
+                    decoy["name"] = sib["name"]
+                    decoy["oid"] = [["both", "iso", 1], ["num", 2], ["num", 999]]
+                    decoy["same_name_edition"] = True
                 mods_ref.append(decoy)
                 mods_lit.append(copy.deepcopy(decoy))
     order = list(range(len(mods_ref)))
     rng.shuffle(order)
+    # an edition of the same name is loaded after the module it shadows
+    for i, m in enumerate(mods_ref):
+        if m.get("same_name_edition"):
+            j = next(k for k, x in enumerate(mods_ref) if x["name"] == m["name"] and not x.get("same_name_edition"))
+            if order.index(i) < order.index(j):
+                a_, b_ = order.index(i), order.index(j)
+                order[a_], order[b_] = order[b_], order[a_]
     mods_ref = [mods_ref[i] for i in order]
     mods_lit = [mods_lit[i] for i in order]
     seed = rng.randrange(1 << 30)
